@@ -332,11 +332,19 @@ def classify_parse(ln, out):
 
 def parse_cases(r, n):
     """(string, expected|None): expected only for strings rendered from the documented grammar."""
-    fixed = ["kern", "+kern", "-kern", "kern=0", "kern=1", "aalt=2", "kern[]", "kern[:]", "kern[5:]", "kern[:5]", "kern[3:5]",
-             "kern[3]", "aalt[3:5]=2", "kern[3;5]=2", "kern[:-1]", "kern[-1]", "kern=on", "kern=off", "kern=oN", "kern=oFf", "",
-             " ", "kern abc", "kern 2", '"kern" on', "'liga' 0", "kern[99999999999]", "kern[1:99999999999]", "kern=3000000000",
-             "kern=-1", "[1]", "=1", "a", "abcde", "kern[", "kern[1", "kern]", "-", "+", "kern[-]", "kern[+:+]", "kern=+on"]
-    cases = [(s, None) for s in fixed]
+    K = T("kern")
+    # the table of the HarfBuzz manual (and of the doc comment of from_str), with the documented meaning
+    documented = [("kern", (K, 1, 0, U32)), ("+kern", (K, 1, 0, U32)), ("-kern", (K, 0, 0, U32)), ("kern=0", (K, 0, 0, U32)),
+                  ("kern=1", (K, 1, 0, U32)), ("aalt=2", (T("aalt"), 2, 0, U32)), ("kern[]", (K, 1, 0, U32)),
+                  ("kern[:]", (K, 1, 0, U32)), ("kern[5:]", (K, 1, 5, U32)), ("kern[:5]", (K, 1, 0, 5)),
+                  ("kern[3:5]", (K, 1, 3, 5)), ("kern[3]", (K, 1, 3, 4)), ("aalt[3:5]=2", (T("aalt"), 2, 3, 5)),
+                  ("kern=on", (K, 1, 0, U32)), ("kern=off", (K, 0, 0, U32)), ('"kern" on', (K, 1, 0, U32)),
+                  ("'liga' 0", (T("liga"), 0, 0, U32)), ("kern 2", (K, 2, 0, U32))]
+    fixed = ["kern[3;5]=2", "kern[:-1]", "kern[-1]", "kern=oN", "kern=oFf", "",
+             " ", "kern abc", "kern[99999999999]", "kern[1:99999999999]", "kern=3000000000",
+             "kern=-1", "[1]", "=1", "a", "abcde", "kern[", "kern[1", "kern]", "-", "+", "kern[-]", "kern[+:+]", "kern=+on",
+             "kern= 2", "kern[3] 2", "kern=2147483648"]
+    cases = list(documented) + [(s, None) for s in fixed]
     for _ in range(n):
         k = r.below(4)
         if k <= 1:
@@ -775,7 +783,7 @@ def e2e_search(ctx, shim, r):
                             f = [(t1, v1, *r1), (t2, v2, *r2)]
                             reqs.append(shape_request("F", facts, lk, f, text5)); meta.append((text5, f))
     # random longer feature lists
-    for _ in range(ctx.budget(2000, 40000)):
+    for _ in range(ctx.budget(5000, 60000)):
         f = []
         for _ in range(r.range(1, 6)):
             s, e = r.choice(R2 + [(r.below(6), r.below(7))])
@@ -786,7 +794,7 @@ def e2e_search(ctx, shim, r):
     groups = [[reg] + reqs[i:i + size] for i in range(0, len(reqs), size)]
     outs = vlib.run_groups(shim, groups)
     flat = [o for g in outs for o in g[1:]]
-    stats = {"ok": 0, "value-wraps-mod-256": 0, "ranged-then-global-same-tag": 0, "semantics-hb-only": 0,
+    stats = {"ok": 0, "value-wraps-mod-256": 0, "ranged-then-global-same-tag": 0, "ranged-then-global-truncates": 0, "semantics-hb-only": 0,
              "semantics-seq-only": 0, "other": 0}
     reported = {}
     nontriv = 0
@@ -803,6 +811,9 @@ def e2e_search(ctx, shim, r):
         elif any(f[j][0] == f[k][0] and (f[j][2], f[j][3]) != (0, U32) and (f[k][2], f[k][3]) == (0, U32) and f[k][1] == 1
                  for j in range(len(f)) for k in range(j + 1, len(f))):
             cls = "ranged-then-global-same-tag"
+        elif any(f[j][0] == f[k][0] and (f[j][2], f[j][3]) != (0, U32) and (f[k][2], f[k][3]) == (0, U32)
+                 for j in range(len(f)) for k in range(j + 1, len(f))):
+            cls = "ranged-then-global-truncates"
         else:
             cls = "other"
         stats[cls] += 1
@@ -811,6 +822,8 @@ def e2e_search(ctx, shim, r):
             what = {"value-wraps-mod-256": "a feature value ≥ 256 acts as value mod 256 (256 switches the feature OFF)",
                     "ranged-then-global-same-tag": "a ranged entry followed by a global entry (value 1) of the same tag is "
                     "applied to the shared GLOBAL bit: an even ranged value switches every default-on feature off in that range",
+                    "ranged-then-global-truncates": "a global entry after a ranged entry of the same tag overwrites max_value "
+                    "(dedup_feature_infos), so the earlier ranged value is truncated to the bit width of the global value",
                     "other": "a user feature did not act on exactly its cluster range with its value"}[cls]
             ctx.violation(f"{what}: features {f} on clusters {[c for _, c in text]} → {o}; expected {a}",
                           {"stage": "search", "stream": "feature-shape", "class": cls, "api": "shape",
@@ -845,25 +858,25 @@ def run(ctx):
     shim = vlib.build_harness()
 
     r = ctx.rng("new")
-    cases = new_cases(r, ctx.budget(3000, 100000))
+    cases = new_cases(r, ctx.budget(5000, 100000))
     ctx.correspond("feature-new", lines=[new_line(c) for c in cases], classify=classify_new)
     new_search(ctx, shim, cases)
 
     r = ctx.rng("parse")
-    pcases = parse_cases(r, ctx.budget(20000, 400000))
+    pcases = parse_cases(r, ctx.budget(40000, 600000))
     ctx.correspond("feature-parse", lines=[parse_line(s) for s, _ in pcases], classify=classify_parse)
     parse_search(ctx, shim, pcases)
 
     r = ctx.rng("setmasks")
-    sm = setmasks_lines(r, ctx.budget(20000, 400000))
+    sm = setmasks_lines(r, ctx.budget(40000, 600000))
     ctx.correspond("set-masks", lines=sm, classify=classify_setmasks)
     setmasks_search(ctx, shim, sm)
 
     r = ctx.rng("map")
-    units = font_units(ctx, shim, r, ctx.budget(40, 230), ctx.budget(40, 400))
-    ctx.correspond("map-compile", groups=compile_groups(r, units, ctx.budget(25, 120)), classify=classify_compile)
-    ctx.correspond("plan-info", groups=plan_groups(r, units, ctx.budget(15, 80)), classify=classify_compile)
-    ctx.correspond("feature-shape", groups=shape_groups(r, units, ctx.budget(60, 400)), classify=classify_shape)
+    units = font_units(ctx, shim, r, ctx.budget(60, 230), ctx.budget(60, 400))
+    ctx.correspond("map-compile", groups=compile_groups(r, units, ctx.budget(40, 150)), classify=classify_compile)
+    ctx.correspond("plan-info", groups=plan_groups(r, units, ctx.budget(25, 100)), classify=classify_compile)
+    ctx.correspond("feature-shape", groups=shape_groups(r, units, ctx.budget(100, 500)), classify=classify_shape)
 
     e2e_search(ctx, shim, ctx.rng("e2e"))
 
